@@ -44,7 +44,10 @@ class X2_Proto(X2):
 
     def unpack(self, data):
         len = super().unpack(data)
+        self.protocols = self._protocols()
+        return len
 
+    def _protocols(self):
         res = ''
         if self.value & 0x01:
             res = self.concat(res, 'UBX')
@@ -52,9 +55,7 @@ class X2_Proto(X2):
             res = self.concat(res, 'NMEA')
         if self.value & 0x04:
             res = self.concat(res, 'RTCM')
-
-        self.protocols = res
-        return len
+        return res
 
     @staticmethod
     def concat(text, add):
@@ -65,7 +66,7 @@ class X2_Proto(X2):
         return text
 
     def __str__(self):
-        return f'{self.name}: {self.protocols}'
+        return f'{self.name}: {self._protocols()}'
 
 
 class X4_Mode(X4):
